@@ -243,6 +243,9 @@ type sortCtx struct {
 	structs map[string]*types.Struct // sort name -> struct
 	named   map[string]types.Type
 	mapKV   map[string][2]string
+	// dynamic types and the interfaces they are tested against (implements_N facts)
+	tidTypes map[int]types.Type
+	ifaces   []types.Type
 }
 
 func newSortCtx(d *Decls) *sortCtx {
@@ -267,7 +270,85 @@ func (sc *sortCtx) tid(t types.Type) int {
 	id := len(sc.tids) + 1
 	sc.tids[k] = id
 	sc.tidList = append(sc.tidList, k)
+	if sc.tidTypes == nil {
+		sc.tidTypes = map[int]types.Type{}
+	}
+	sc.tidTypes[id] = t
+	sc.syncImplements()
 	return id
+}
+
+// implementsFn returns the predicate "a value with this dynamic type id implements interface
+// t". For every concrete type that occurs as a dynamic type in the unit the answer is the type
+// checker's (types.Implements); for other dynamic types it is uninterpreted.
+func (sc *sortCtx) implementsFn(t types.Type) string {
+	id := sc.tid(t)
+	name := "implements_" + fmt.Sprint(id)
+	sc.d.fun(name, []string{"Int"}, "Bool")
+	known := false
+	for _, i := range sc.ifaces {
+		if types.Identical(i, t) {
+			known = true
+		}
+	}
+	if !known {
+		sc.ifaces = append(sc.ifaces, t)
+		sc.syncImplements()
+	}
+	return name
+}
+
+func (sc *sortCtx) syncImplements() {
+	for _, it := range sc.ifaces {
+		iface, ok := it.Underlying().(*types.Interface)
+		if !ok {
+			continue
+		}
+		iid := sc.tids[typeString(types.Unalias(it))]
+		for id := 1; id <= len(sc.tidList); id++ {
+			ct := sc.tidTypes[id]
+			if ct == nil || types.IsInterface(ct) || hasTypeParam(ct) {
+				continue
+			}
+			func() {
+				defer func() { recover() }()
+				b := "false"
+				if types.Implements(ct, iface) {
+					b = "true"
+				}
+				sc.d.axiom(fmt.Sprintf("implements.%d.%d", iid, id), fmt.Sprintf("(= (implements_%d %d) %s)", iid, id, b))
+			}()
+		}
+	}
+}
+
+func hasTypeParam(t types.Type) bool {
+	found := false
+	var visit func(t types.Type, depth int)
+	visit = func(t types.Type, depth int) {
+		if found || depth > 6 || t == nil {
+			return
+		}
+		switch x := types.Unalias(t).(type) {
+		case *types.TypeParam:
+			found = true
+		case *types.Pointer:
+			visit(x.Elem(), depth+1)
+		case *types.Slice:
+			visit(x.Elem(), depth+1)
+		case *types.Array:
+			visit(x.Elem(), depth+1)
+		case *types.Map:
+			visit(x.Key(), depth+1)
+			visit(x.Elem(), depth+1)
+		case *types.Named:
+			for i := 0; i < x.TypeArgs().Len(); i++ {
+				visit(x.TypeArgs().At(i), depth+1)
+			}
+		}
+	}
+	visit(t, 0)
+	return found
 }
 
 func isStructValue(t types.Type) (*types.Struct, bool) {
